@@ -733,6 +733,7 @@ def rule_opq_record(text):
     table = [
         (r"record\s*\.\s*ttl_expiry\s*\.\s*load\s*\(\s*Ordering::Acquire\s*\)", "rec_expiry(record)"),
         (r"record\s*\.\s*value\s*\.\s*read\s*\(\s*\)\s*\.\s*as_ref\s*\(\s*\)", "rec_value(record)"),
+        (r"record\s*\.\s*get_value\s*\(\s*\)", "rec_get_value(record)"),
         (r"&\s*record\s*\.\s*key\b(?!\s*\.)", "rec_key(record).as_slice()"),
         (r"record\s*\.\s*key\b", "rec_key(record)"),
         (r"record\s*\.\s*value_len\b", "rec_value_len(record)"),
